@@ -539,7 +539,7 @@ DOMAINS = {
     "f_dynout": {"target": ("dyn1", "dyn2"), "consumer": ("none", "dyn1", "dyn2"), "sub": (0, 1)},
     "f_hold": {"nesting": (2, 1), "v": (1, 2)},
 }
-ENV_DOMAIN = {"f_env": {"VERIF_X": (None, "1", "2")}}
+ENV_DOMAIN = {"f_env": {"VERIF_X": (None, "1", "2", "")}}
 
 
 # -- generated dependency graphs for C11 ---------------------------------------------------------
